@@ -423,7 +423,10 @@ def h10(ctx):
         ok = isinstance(sv, tuple) and sv[0] == "call" and sv[1] == "fresh"
         # canonical renumbering of a map built from scratch (`theta.insert(x, Slot::numeric(theta.len()))`): a normal form, not a completion
         m0 = strip_role(b.role_of_operand(c.args[0]))
-        if not ok and isinstance(sv, tuple) and sv[0] == "call" and sv[1] == "numeric" and role_mentions_call(sv, "len") and isinstance(m0, tuple) and m0[0] == "call" and m0[1] in ("new", "default"):
+        # .. numbered by the size of the very map being filled (so the numbering is injective by construction), nothing else
+        lens = [x for x in role_walk(sv) if isinstance(x, tuple) and x[0] == "call" and x[1] == "len"]
+        own_len = bool(lens) and all(x[3] and strip_role(x[3][0]) == m0 for x in lens) and not any(isinstance(x, tuple) and x[0] in ("phi", "bin") for x in role_walk(sv))
+        if not ok and isinstance(sv, tuple) and sv[0] == "call" and sv[1] == "numeric" and own_len and isinstance(m0, tuple) and m0[0] == "call" and m0[1] in ("new", "default"):
             ctx.ok("canonical-numbering:" + C.fkey(root), "%s numbers the slots of a map built from scratch (normal form of a registry key)" % C.short(root.id), where_of(b, c.bb))
             continue
         ctx.check(ok, "completion-is-fresh:" + C.fkey(root), "%s completes a slot map with Slot::fresh()" % C.short(root.id),
